@@ -96,7 +96,10 @@ let handle = function
       | Fatal OOF -> L [A "fatal"; A "oof"; bodies]
       | Fatal Hang -> L [A "fatal"; A "hang"; bodies]
       | Fatal (Foreign x) -> L [A "fatal"; L [A "foreign"; of_nat x]; bodies] in
-    if mode = "f" then
+    if mode = "g" then
+      let (r, st) = genparse_with text re_at (set_of alnum) (set_of alpha) (map_of lower) (map_of upper) ic unsafe rules ec act lineat (to_nat fuel) (to_nat start) in
+      show_res r (of_list of_nat (List.rev st.nbody))
+    else if mode = "f" then
       let (r, st) = parse_with text re_at (set_of alnum) (set_of alpha) (map_of lower) (map_of upper) ic unsafe rules ec act lineat (to_nat fuel) (to_nat start) in
       show_res r (of_list of_nat (List.rev st.nbody))
     else
